@@ -27,8 +27,10 @@ struct KI {   // set element: ordered / hashed / key-compared by k only, so equi
 	friend bool operator<=(const KI& a, const KI& b) { return !(b < a); }
 	friend bool operator>=(const KI& a, const KI& b) { return !(a < b); }
 };
-struct KLess { bool operator()(const KI& a, const KI& b) const { return a.k < b.k; } };
-struct KEq { bool operator()(const KI& a, const KI& b) const { return a.k == b.k; } };
+// STATEFUL comparators: desc == true (a non-default state) orders descending; a wrapper that rebuilds the container with a default-constructed functor is visible
+struct KLess { bool desc; explicit KLess(bool d = false) : desc(d) {} bool operator()(const KI& a, const KI& b) const { return desc ? b.k < a.k : a.k < b.k; } };
+struct ILess { bool desc; explicit ILess(bool d = false) : desc(d) {} bool operator()(int a, int b) const { return desc ? b < a : a < b; } };
+struct KEq { int tag; explicit KEq(int t = 0) : tag(t) {} bool operator()(const KI& a, const KI& b) const { return a.k == b.k; } };   // stateful: tag observed through key_eq()
 // hash distributions: 0 = std::hash (identity), 1 = constant, 2 = only high bits vary (low 24 bits zero), 3 = four classes
 static size_t hmix(int mode, int k) { switch (mode) { case 1: return 7; case 2: return size_t(unsigned(k)) << 24; case 3: return size_t(k & 3); default: return std::hash<int>()(k); } }
 struct KHash { int mode; explicit KHash(int m = 0) : mode(m) {}
@@ -112,8 +114,8 @@ template<int AK> struct Cont<UMMAP, false, AK> { typedef ns::unordered_multimap<
 template<int AK> struct Cont<UMMAP, true, AK> { typedef ns::unordered_multimap_open<int, int, IHash, std::equal_to<int>, typename PickAlloc<AK, PII>::type> type; };
 template<int AK> struct Cont<OSET, false, AK> { typedef ns::set<KI, KLess, typename PickAlloc<AK, KI>::type> type; };
 template<int AK> struct Cont<OMSET, false, AK> { typedef ns::multiset<KI, KLess, typename PickAlloc<AK, KI>::type> type; };
-template<int AK> struct Cont<OMAP, false, AK> { typedef ns::map<int, int, std::less<int>, typename PickAlloc<AK, PII>::type> type; };
-template<int AK> struct Cont<OMMAP, false, AK> { typedef ns::multimap<int, int, std::less<int>, typename PickAlloc<AK, PII>::type> type; };
+template<int AK> struct Cont<OMAP, false, AK> { typedef ns::map<int, int, ILess, typename PickAlloc<AK, PII>::type> type; };
+template<int AK> struct Cont<OMMAP, false, AK> { typedef ns::multimap<int, int, ILess, typename PickAlloc<AK, PII>::type> type; };
 template<int AK> struct Cont<VEC, false, AK> { typedef ns::vector<int, typename PickAlloc<AK, int>::type> type; };
 template<int AK> struct Cont<FUSET, false, AK> { typedef ns::unordered_set<int, momo::HashCoder<int>, std::equal_to<int>, typename PickAlloc<AK, int>::type> type; };
 template<int AK> struct Cont<FUSET, true, AK> { typedef ns::unordered_set_open<int, momo::HashCoder<int>, std::equal_to<int>, typename PickAlloc<AK, int>::type> type; };
@@ -123,7 +125,7 @@ template<int AK> struct Cont<FUMMAP, false, AK> { typedef ns::unordered_multimap
 template<int AK> struct Cont<FUMMAP, true, AK> { typedef ns::unordered_multimap_open<int, int, momo::HashCoder<int>, std::equal_to<int>, typename PickAlloc<AK, PII>::type> type; };
 template<int AK> struct Cont<SMAP, false, AK> { typedef ns::map<std::string, std::string, std::less<>, typename PickAlloc<AK, PSS>::type> type; };
 template<int AK> struct Cont<SUMAP, false, AK> { typedef ns::unordered_map<std::string, std::string, SHash, SEq, typename PickAlloc<AK, PSS>::type> type; };
-template<int AK> struct Cont<MOMAP, false, AK> { typedef ns::map<int, MO, std::less<int>, typename PickAlloc<AK, PIM>::type> type; };
+template<int AK> struct Cont<MOMAP, false, AK> { typedef ns::map<int, MO, ILess, typename PickAlloc<AK, PIM>::type> type; };
 template<int AK> struct Cont<MOUMAP, false, AK> { typedef ns::unordered_map<int, MO, IHash, std::equal_to<int>, typename PickAlloc<AK, PIM>::type> type; };
 static const bool isMomo = true;
 #else
@@ -132,15 +134,15 @@ template<bool OPEN, int AK> struct Cont<UMAP, OPEN, AK> { typedef std::unordered
 template<bool OPEN, int AK> struct Cont<UMMAP, OPEN, AK> { typedef std::unordered_multimap<int, int, IHash, std::equal_to<int>, typename PickAlloc<AK, PII>::type> type; };
 template<int AK> struct Cont<OSET, false, AK> { typedef std::set<KI, KLess, typename PickAlloc<AK, KI>::type> type; };
 template<int AK> struct Cont<OMSET, false, AK> { typedef std::multiset<KI, KLess, typename PickAlloc<AK, KI>::type> type; };
-template<int AK> struct Cont<OMAP, false, AK> { typedef std::map<int, int, std::less<int>, typename PickAlloc<AK, PII>::type> type; };
-template<int AK> struct Cont<OMMAP, false, AK> { typedef std::multimap<int, int, std::less<int>, typename PickAlloc<AK, PII>::type> type; };
+template<int AK> struct Cont<OMAP, false, AK> { typedef std::map<int, int, ILess, typename PickAlloc<AK, PII>::type> type; };
+template<int AK> struct Cont<OMMAP, false, AK> { typedef std::multimap<int, int, ILess, typename PickAlloc<AK, PII>::type> type; };
 template<int AK> struct Cont<VEC, false, AK> { typedef std::vector<int, typename PickAlloc<AK, int>::type> type; };
 template<bool OPEN, int AK> struct Cont<FUSET, OPEN, AK> { typedef std::unordered_set<int, std::hash<int>, std::equal_to<int>, typename PickAlloc<AK, int>::type> type; };
 template<bool OPEN, int AK> struct Cont<FUMAP, OPEN, AK> { typedef std::unordered_map<int, int, std::hash<int>, std::equal_to<int>, typename PickAlloc<AK, PII>::type> type; };
 template<bool OPEN, int AK> struct Cont<FUMMAP, OPEN, AK> { typedef std::unordered_multimap<int, int, std::hash<int>, std::equal_to<int>, typename PickAlloc<AK, PII>::type> type; };
 template<int AK> struct Cont<SMAP, false, AK> { typedef std::map<std::string, std::string, std::less<>, typename PickAlloc<AK, PSS>::type> type; };
 template<int AK> struct Cont<SUMAP, false, AK> { typedef std::unordered_map<std::string, std::string, SHash, SEq, typename PickAlloc<AK, PSS>::type> type; };
-template<int AK> struct Cont<MOMAP, false, AK> { typedef std::map<int, MO, std::less<int>, typename PickAlloc<AK, PIM>::type> type; };
+template<int AK> struct Cont<MOMAP, false, AK> { typedef std::map<int, MO, ILess, typename PickAlloc<AK, PIM>::type> type; };
 template<int AK> struct Cont<MOUMAP, false, AK> { typedef std::unordered_map<int, MO, IHash, std::equal_to<int>, typename PickAlloc<AK, PIM>::type> type; };
 static const bool isMomo = false;
 #endif
@@ -169,11 +171,12 @@ template<Shape S, bool OPEN, int AK> struct Runner {
 	std::ostringstream out;
 
 	static C* create(int id, int hashMode) {
-		if constexpr (SI::isOrdered) return new C(typename C::key_compare(), AllocInfo<A>::make(id));
+		if constexpr (S == SMAP) return new C(typename C::key_compare(), AllocInfo<A>::make(id));
+		else if constexpr (SI::isOrdered) return new C(typename C::key_compare(hashMode == 1), AllocInfo<A>::make(id));   // hashMode 1 on an ordered kind = descending comparator state
 		else if constexpr (S == FUSET || S == FUMAP || S == FUMMAP) return new C(0, typename C::hasher(), typename C::key_equal(), AllocInfo<A>::make(id));
 		else if constexpr (S == SUMAP) return new C(0, SHash(hashMode), SEq(), AllocInfo<A>::make(id));
 		else if constexpr (SI::isMap) return new C(0, IHash(hashMode), std::equal_to<int>(), AllocInfo<A>::make(id));
-		else return new C(0, KHash(hashMode), KEq(), AllocInfo<A>::make(id));
+		else return new C(0, KHash(hashMode), KEq(40 + hashMode), AllocInfo<A>::make(id));
 	}
 	static auto mk(int k, int v) { if constexpr (SI::isMap) return std::pair<typename CD::key, typename CD::mapped>(CD::K(k), CD::M(v)); else if constexpr (SI::intSet) return k; else return KI(k, v); }
 	static auto mkKey(int k) { if constexpr (SI::isMap) return CD::K(k); else if constexpr (SI::intSet) return k; else return KI(k, 0); }
@@ -339,7 +342,15 @@ template<Shape S, bool OPEN, int AK> struct Runner {
 				else { auto it = x.find(mkKey(I(w, 2))); if (it != x.end()) { auto n = x.extract(it); out << nodeStr(n); } else out << "none"; } }
 		} else if (o == "xins" || o == "xinsh") { if constexpr (SI::hasNodes) {   // node = c.extract(k); d.insert([hint,] move(node))
 				C& d = *c[I(w, 2) & 1]; auto n = x.extract(mkKey(I(w, 3))); out << nodeStr(n) << ">";
-				if (o == "xinsh") { auto it = d.insert(hintIt(d, I(w, 4)), std::move(n)); out << pos(d, it); }
+				if (o == "xinsh") { std::string was = nodeStr(n); size_t before = d.size(); auto it = d.insert(hintIt(d, I(w, 4)), std::move(n)); out << pos(d, it) << ",";   // a refused node stays in the caller's handle
+#ifdef IMPL_STD
+					// libstdc++ 12 unordered_*::insert(hint, node&&) returns _M_reinsert_node(...).position and so destroys a refused node with the temporary
+					// insert_return_type; [unord.req] says "nh is unchanged if the insertion fails": the std side prints what the standard mandates
+					if constexpr (!SI::isOrdered) out << (d.size() > before ? std::string("empty") : was); else out << nodeStr(n);
+#else
+					(void)was; (void)before; out << nodeStr(n);
+#endif
+				}
 				else if constexpr (SI::isMulti) { auto it = d.insert(std::move(n)); out << pos(d, it); }
 				else { auto r = d.insert(std::move(n)); out << pos(d, r.position) << "," << r.inserted << "," << nodeStr(r.node); } }
 		} else if (o == "xmut") { if constexpr (SI::hasNodes) {   // node round trip with the key changed through the handle: n = c.extract(k); n.key() = k2; d.insert(move(n))
@@ -361,7 +372,7 @@ template<Shape S, bool OPEN, int AK> struct Runner {
 		} else if (o == "mrgm" || o == "mrgt") { if constexpr (S == OSET || S == OMSET || S == OMAP || S == OMMAP) {
 				// merge between a unique and a multi container of the same element type: mrgm: x.merge(sibling built from args); mrgt: sibling.merge(x)
 				typedef typename Cont<(S == OSET ? OMSET : S == OMSET ? OSET : S == OMAP ? OMMAP : OMAP), false, AK>::type Sib;
-				Sib t(typename Sib::key_compare(), x.get_allocator());
+				Sib t(x.key_comp(), x.get_allocator());
 				for (size_t i = 2; i + 1 < w.size(); i += 2) t.insert(mk(I(w, i), I(w, i + 1)));
 				if (o == "mrgm") x.merge(t); else t.merge(x);
 				out << "[";  bool first = true; for (auto it = t.begin(); it != t.end(); ++it) { out << (first ? "" : ",") << es(*it); first = false; } out << "]"; }
@@ -380,7 +391,10 @@ template<Shape S, bool OPEN, int AK> struct Runner {
 		} else if (o == "kfn") {   // observers: key_comp / value_comp / hash_function / key_eq
 			int a = I(w, 2), b = I(w, 3);
 			if constexpr (SI::isOrdered) out << int(x.key_comp()(mkKey(a), mkKey(b))) << int(x.value_comp()(mk(a, 1), mk(b, 2)));
-			else out << int(x.key_eq()(mkKey(a), mkKey(b))) << int(x.hash_function()(mkKey(a)) == x.hash_function()(mkKey(a)));
+			else { out << int(x.key_eq()(mkKey(a), mkKey(b)));
+				if constexpr (S == USET) out << int(x.hash_function()(mkKey(a)) == hmix(hashMode, a) && x.key_eq().tag == 40 + hashMode);        // the functor STATE survives assignment / swap
+				else if constexpr (S == UMAP || S == UMMAP || S == MOUMAP) out << int(x.hash_function()(mkKey(a)) == hmix(hashMode, a));
+				else out << 1; }
 		} else if (o == "mvca" || o == "cpca") {   // allocator-extended move / copy construction (pvCreateSet / pvCreateMap: element-wise when allocators differ)
 			int ci = I(w, 1) & 1, di = I(w, 2) & 1, nid = I(w, 3);
 			if (ci != di && (o == "mvca" || CD::copyable)) {
@@ -554,9 +568,13 @@ template<Shape S, bool OPEN> static std::string runWE(int hm, const std::vector<
 #ifdef IMPL_MOMO
 typedef momo::stdish::unordered_multimap<KI, int, KHash, KEq> MMK;
 typedef momo::stdish::unordered_multimap_open<KI, int, KHash, KEq> MMKO;
+typedef momo::stdish::unordered_map<KI, int, KHash, KEq> UMK;
+typedef momo::stdish::unordered_map_open<KI, int, KHash, KEq> UMKO;
 #else
 typedef std::unordered_multimap<KI, int, KHash, KEq> MMK;
 typedef MMK MMKO;
+typedef std::unordered_map<KI, int, KHash, KEq> UMK;
+typedef UMK UMKO;
 #endif
 template<class M> static std::string runMMK(const Words& head) {   // mmk|mmko hm k.id.v ... / k.id.v ... [/ erase_if modulus residue]
 	int hm = I(head, 1); M a(0, KHash(hm), KEq()), b(0, KHash(hm), KEq()); M* cur = &a; size_t i = 2; int m = 0, r = 0;
@@ -733,6 +751,8 @@ int main()
 		if (head[0] == "pbs") { puts(runPBS(I(head, 1), I(head, 2), I(head, 3)).c_str()); continue; }
 		if (head[0] == "mmk") { puts(runMMK<MMK>(head).c_str()); continue; }
 		if (head[0] == "mmko") { puts(runMMK<MMKO>(head).c_str()); continue; }
+		if (head[0] == "umk") { puts(runMMK<UMK>(head).c_str()); continue; }     // unordered_map with identity-tagged keys (key_eq coarser than ==)
+		if (head[0] == "umko") { puts(runMMK<UMKO>(head).c_str()); continue; }
 #endif
 		std::string kind = head[0]; int ak = I(head, 1), idA = I(head, 2), idB = I(head, 3), hm = I(head, 4);
 		std::vector<Words> ops(segs.begin() + 1, segs.end());
